@@ -69,7 +69,8 @@ class KNXIPTransport(ABC):
     def handle_knxipframe(self, knxipframe: KNXIPFrame, source: HPAI) -> None:
         """Handle KNXIP Frame and call all callbacks matching the service type ident."""
         handled = False
-        for callback in self.callbacks:
+        # iterate over a copy - a callback may (un)register callbacks
+        for callback in tuple(self.callbacks):
             if callback.has_service(knxipframe.header.service_type_ident):
                 callback.callback(knxipframe, source, self)
                 handled = True
